@@ -1,0 +1,39 @@
+//go:build verif
+// +build verif
+
+// Machine-checked contracts for package parsing (comment-only; read by /verif/govc).
+
+package parsing
+
+// Binary operators (manual §3.4.8): an operator on the stack is reduced before
+// the incoming one is pushed exactly when the incoming one does not bind tighter
+// - strictly looser, or equal precedence and left associative (everything except
+// `..`).  The test is made against the operator currently on top of the stack at
+// every reduction.
+//@ func mergepop
+//@   external
+
+//@ func (*Parser).Exp
+//@   prop C12
+//@   arith int
+//@   norte
+//@   nocover
+//@   modifies everything()
+//@   exits any
+//@   loop 1: invariant true
+//@   loop 2: invariant true
+//@   loop 3: invariant true
+//@   assert_before_call mergepop#1: op.Precedence() < $it.op.Precedence() || (op.Precedence() == $it.op.Precedence() && op != ops.OpConcat)
+
+// The precedence table (lowest to highest): or < and < comparison < | < ~ < & <
+// shift < .. < + - < * / // % < unary < ^.
+//@ lemma ops/precedence-order
+//@   prop C12
+//@   arith int
+//@   ensures ops.OpOr.Precedence() < ops.OpAnd.Precedence() && ops.OpAnd.Precedence() < ops.OpLt.Precedence()
+//@   ensures ops.OpLt.Precedence() == ops.OpLeq.Precedence() && ops.OpLt.Precedence() == ops.OpGt.Precedence() && ops.OpLt.Precedence() == ops.OpGeq.Precedence() && ops.OpLt.Precedence() == ops.OpEq.Precedence() && ops.OpLt.Precedence() == ops.OpNeq.Precedence()
+//@   ensures ops.OpLt.Precedence() < ops.OpBitOr.Precedence() && ops.OpBitOr.Precedence() < ops.OpBitXor.Precedence() && ops.OpBitXor.Precedence() < ops.OpBitAnd.Precedence()
+//@   ensures ops.OpBitAnd.Precedence() < ops.OpShiftL.Precedence() && ops.OpShiftL.Precedence() == ops.OpShiftR.Precedence() && ops.OpShiftL.Precedence() < ops.OpConcat.Precedence()
+//@   ensures ops.OpConcat.Precedence() < ops.OpAdd.Precedence() && ops.OpAdd.Precedence() == ops.OpSub.Precedence() && ops.OpAdd.Precedence() < ops.OpMul.Precedence()
+//@   ensures ops.OpMul.Precedence() == ops.OpDiv.Precedence() && ops.OpMul.Precedence() == ops.OpFloorDiv.Precedence() && ops.OpMul.Precedence() == ops.OpMod.Precedence()
+//@   ensures ops.OpMul.Precedence() < ops.OpNeg.Precedence() && ops.OpNeg.Precedence() == ops.OpNot.Precedence() && ops.OpNeg.Precedence() == ops.OpLen.Precedence() && ops.OpNeg.Precedence() == ops.OpBitNot.Precedence() && ops.OpNeg.Precedence() < ops.OpPow.Precedence()
